@@ -13,7 +13,9 @@ META = {
             "never pass a wrapped size to the system; the DebugAllocator block ends exactly at the guard page and deallocate finds it (refuted for the "
             "tree as found when the byte size is a multiple of the page size).  The model is tied to dune/common/{pool,malloc,aligned,debug}allocator.hh "
             "on every run by replaying exhaustive short scripts and seeded random walks on ~500 template instantiations; Dune::isAligned "
-            "(std::align bit trick) decides p mod 2^k = 0; AlignedBase placement new reports exactly the misaligned addresses.",
+            "(std::align bit trick) decides p mod 2^k = 0; AlignedBase placement new reports exactly the misaligned addresses; the whole public "
+            "interface is exercised (mutants/C15/API_COVERAGE.md): copy/convert/rebind never share a pool, deallocate(p,0), null/foreign pointers, "
+            "construct/destroy/address/max_size/operator==, AllocationManager misuse detection and destructor, DEBUG_ALLOCATOR_KEEP double free.",
     "note": "Trusted: Coq kernel, extraction, OCaml driver, C++ harness (operator new recorder, tag writing, EFAULT probes), g++, glibc "
             "malloc/aligned_alloc/mmap return fresh (aligned) memory; sizeof(void*)=alignof(void*)=8.",
     "design_ref": "DESIGN.md section 4 C15",
@@ -66,27 +68,39 @@ def config_of(case):
         return "%s(%s,%s,%s)" % (t[0].upper(), t[1], t[2], t[3])
     if t[0] == "malloc":
         return "SYS(%s,%s)" % (t[1], t[2])
-    if t[0] == "debug":
+    if t[0] in ("debug", "dman", "debugkeep"):
         return "SYS(%s,%s)" % (t[2], t[3])
+    if t[0] == "api":
+        return {"pa": "PA(%s,%s,%s)" % (t[2], t[3], t[4]), "malloc": "SYS(%s,%s)" % (t[2], t[3]), "debug": "SYS(%s,%s)" % (t[2], t[3]),
+                "aligned": "ALIGNED(%s,%s,%s)" % (t[2], t[3], t[4])}.get(t[1])
     if t[0] == "aligned":
         return "ALIGNED(%s,%s,%s)" % (t[1], t[2], t[3])
     return None
 
 
+NPART = 4      # the harness is compiled NPART times, each with a quarter of the instantiations (parallel, short compile)
+NPART_SAN = 2
+
+
 def write_configs(ctx):
-    """configs.inc: every instantiation; configs_san.inc: the subset compiled into the sanitizer build (quick tier: a quarter of the
-    pool instantiations + the exhaustive-script configurations, to keep the compile time down; thorough tier: all)."""
+    """configs_p<k>.inc: the instantiations of part k; configs_san<k>.inc: the subset compiled into the sanitizer build (quick tier: a
+    quarter of the pool instantiations + the exhaustive-script configurations; thorough tier: all); configs_keep.inc: the SYS
+    instantiations only (DEBUG_ALLOCATOR_KEEP=1 build).  Returns (#instantiations, [set of part k], [set of san part k])."""
     lines = config_lines()
     for kind, sT, aT, s in EXH_CFG:
         assert "%s(%d,%d,%d)" % (kind.upper(), sT, aT, s) in lines, (kind, sT, aT, s)
     exh = set("%s(%d,%d,%d)" % (k.upper(), a, b, c) for k, a, b, c in EXH_CFG)
     san = [l for i, l in enumerate(lines) if not ctx.quick or i % 4 == 0 or l in exh or l.startswith("SYS") or l.startswith("ALIGNED")]
-    for name, ls in (("configs.inc", lines), ("configs_san.inc", san)):
+    parts = [lines[k::NPART] for k in range(NPART)]
+    sparts = [san[k::NPART_SAN] for k in range(NPART_SAN)]
+    files = [("configs_p%d.inc" % k, ls) for k, ls in enumerate(parts)] + [("configs_san%d.inc" % k, ls) for k, ls in enumerate(sparts)] + \
+            [("configs_keep.inc", [l for l in lines if l.startswith("SYS")])]
+    for name, ls in files:
         txt = "\n".join(ls) + "\n"
         p = ctx.path(name)
         if not os.path.exists(p) or open(p).read() != txt:
             open(p, "w").write(txt)
-    return len(lines), set(san)
+    return len(lines), [set(x) for x in parts], [set(x) for x in sparts]
 
 
 # ----------------------------------------------------------------------------- geometry (python copy only to steer the generator)
@@ -102,31 +116,58 @@ def geom(sT, aT, S):
 
 
 # ----------------------------------------------------------------------------- scripts: abstract events -> indexed ops
-def render(events, succeeds):
-    """events: ('a', n, id) | ('f', id).  succeeds(n) -> bool predicted success (block becomes live).  Returns op tokens or None."""
-    live, out = [], []
+def render(events, succeeds, zfrees=lambda n: n == 1):
+    """events: ('a', n, id) | ('f', id) | ('z', id, n) | ('b', id, k) | ('b2', id) | ('o', token).
+    succeeds(n) -> predicted success of allocate(n) (block becomes live); zfrees(n): deallocate(p, n) releases the block.
+    Returns op tokens (indices recomputed) or None when an event refers to a block that is not live / not released."""
+    live, dead, out = [], [], []
     for e in events:
         if e[0] == 'a':
             out.append("a%d" % e[1])
             if succeeds(e[1]):
                 live.append(e[2])
-        else:
+        elif e[0] == 'f':
             if e[1] not in live:
                 return None
-            out.append("f%d" % live.index(e[1])); live.remove(e[1])
+            out.append("f%d" % live.index(e[1])); live.remove(e[1]); dead.append(e[1])
+        elif e[0] == 'z':
+            if e[1] not in live:
+                return None
+            out.append("z%d.%d" % (live.index(e[1]), e[2]))
+            if zfrees(e[2]):
+                live.remove(e[1]); dead.append(e[1])
+        elif e[0] == 'b':
+            if e[1] not in live:
+                return None
+            out.append("b%d.%d" % (live.index(e[1]), e[2]))
+        elif e[0] == 'b2':
+            if e[1] not in dead:
+                return None
+            out.append("b%d.2" % dead.index(e[1]))
+        else:
+            out.append(e[1])
     return out
 
 
-def parse_events(ops, succeeds):
-    live, ev, nid = [], [], 0
+def parse_events(ops, succeeds, zfrees=lambda n: n == 1):
+    live, dead, ev, nid = [], [], [], 0
     for t in ops:
         if t[0] == 'a':
             n = int(t[1:]); ev.append(('a', n, nid))
             if succeeds(n):
                 live.append(nid)
             nid += 1
+        elif t[0] == 'f':
+            i = int(t[1:]); ev.append(('f', live[i])); dead.append(live.pop(i))
+        elif t[0] == 'z':
+            i, n = [int(x) for x in t[1:].split(".")]; ev.append(('z', live[i], n))
+            if zfrees(n):
+                dead.append(live.pop(i))
+        elif t[0] == 'b':
+            i, k = [int(x) for x in t[1:].split(".")]
+            ev.append(('b2', dead[i]) if k == 2 else ('b', live[i], k))
         else:
-            i = int(t[1:]); ev.append(('f', live[i])); live.pop(i)
+            ev.append(('o', t))
     return ev
 
 
@@ -170,6 +211,64 @@ def random_walk(rng, length, elements, bad_ns=(0, 2, 3, 1000), okn=1):
     return ops
 
 
+def decorate_pool(rng, ops, pa, rate=0.08):
+    """Insert the remaining entry points into an a/f script: free(null) x, free(foreign) y; PoolAllocator only: deallocate(p,0) z<i>.0,
+    deallocate(p,1) as z<i>.1, copy / converting construction / rebind k0 k1 k2, allocate(SIZE_MAX)."""
+    out, nlive = [], 0
+    for t in ops:
+        if rng.random() < rate:
+            c = rng.choice(["x", "y"] + (["k0", "k1", "k2", "z", "amax"] if pa else []))
+            if c == "z":
+                if nlive:
+                    out.append("z%d.0" % rng.randrange(nlive))
+            elif c == "amax":
+                out.append("a%d" % SIZE_MAX)
+            else:
+                out.append(c)
+        if t[0] == 'f' and pa and rng.random() < 0.3:
+            t = "z%s.1" % t[1:]
+        out.append(t)
+        if t == "a1":
+            nlive += 1
+        elif t[0] == 'f' or (t[0] == 'z' and t.endswith(".1")):
+            nlive -= 1
+    return out
+
+
+def decorate_debug(rng, ops, sT, misuse=True):
+    """deallocate with the default / explicit count (z<i>.0, z<i>.<n>), and a terminal misuse: null / foreign pointer, wrong type,
+    interior pointer, wrong count (each must stop the program with the matching diagnostic)."""
+    out, live = [], []
+    for t in ops:
+        if t[0] == 'a':
+            n = int(t[1:])
+            if n * sT < 2 ** 46:
+                live.append(n)
+            out.append(t)
+        elif t[0] == 'f':
+            i = int(t[1:]); n = live.pop(i)
+            z = rng.random()
+            out.append("z%d.0" % i if z < 0.2 else "z%d.%d" % (i, n) if z < 0.4 and n > 0 else t)
+        else:
+            out.append(t)
+    if misuse and rng.random() < 0.5:
+        # no misuse after an overflowing request (on a tree without fixes/C15-2 the live lists of model and impl differ there)
+        if out and out[-1][0] == 'a' and int(out[-1][1:]) * sT >= 2 ** 46:
+            out.pop()
+        c = rng.choice(["x", "y", "b0", "b1", "zw"])
+        if c in ("x", "y"):
+            out.append(c)
+        elif live:
+            i = rng.randrange(len(live))
+            if c == "b0":
+                out.append("b%d.0" % i)
+            elif c == "b1":
+                out.append("b%d.1" % i)
+            else:
+                out.append("z%d.%d" % (i, live[i] + rng.choice([1, 2, 100])))
+    return out
+
+
 def gen(ctx):
     quick = ctx.quick
     cases = []
@@ -195,11 +294,14 @@ def gen(ctx):
                 k = min(el, 40)
                 # fill two chunks (+1), free everything FIFO, refill: reuse order, chunk crossing
                 fill = ["a1"] * (2 * k + 1)
-                sc = fill + ["f0"] * (2 * k + 1) + ["a1"] * (k + 1) + ["a0", "a2"]
+                sc = fill + ["f0"] * (2 * k + 1) + ["a1"] * (k + 1) + ["a0", "a2", "x", "y"] + (["k0", "z0.0", "k2", "a%d" % SIZE_MAX, "k1", "z0.1", "a1"] if kind == "pa" else [])
                 cases.append("%s %d %d %d %s" % (kind, sT, aT, s, " ".join(sc)))
                 for w in range(nwalk):
                     L = rng.choice([20, 60, 150] if quick else [30, 100, 250, 500])
-                    cases.append("%s %d %d %d %s" % (kind, sT, aT, s, " ".join(random_walk(rng, L, el))))
+                    wk = random_walk(rng, L, el)
+                    if w % 2 == 1 or not quick:
+                        wk = decorate_pool(rng, wk, kind == "pa")
+                    cases.append("%s %d %d %d %s" % (kind, sT, aT, s, " ".join(wk)))
     # --- malloc / aligned: sizes around 0, small, max_size
     for kind, cfgs in (("malloc", [(a, b, None) for a, b in SYS_TYPES]), ("aligned", ALIGNED)):
         for sT, aT, al in cfgs:
@@ -248,6 +350,44 @@ def gen(ctx):
                 if rng.random() < 0.5:
                     ops.append("a%d" % rng.choice(over + huge_ok))
                 cases.append(pre + " ".join(ops))
+                if w % 2 == 0:
+                    cases.append(pre + " ".join(decorate_debug(rng, ops, sT)))
+        # (d) misuse, one per kind
+        cases += [pre + "a5 a2 " + m for m in ("x", "y", "b0.0", "b1.1", "b0.1", "z1.3", "z0.0 z0.2 a3 z0.4")]
+        # (e) DebugMemory::AllocationManager used directly: own manager, deallocate<T>(p) with the default count, destructor with / without
+        #     blocks in use
+        for w in range(3 if quick else 10):
+            ops, live = [], []
+            for _ in range(rng.choice([4, 12] if quick else [6, 20, 60])):
+                if rng.random() < 0.55 or not live:
+                    n = rng.choice(npm + pm); ops.append("a%d" % n); live.append(n)
+                else:
+                    i = rng.randrange(len(live)); n = live.pop(i)
+                    ops.append(rng.choice(["f%d" % i, "f%d" % i, "z%d.%d" % (i, n)]))
+            if w % 2 == 0:
+                ops += ["f0"] * len(live)          # clean destruction
+            cases.append("dman %d %d %d " % (PAGE, sT, aT) + " ".join(ops))
+        cases.append("dman %d %d %d a3 b0.0" % (PAGE, sT, aT))
+        cases.append("dman %d %d %d a3 a1 f0 y" % (PAGE, sT, aT))
+        # (f) DEBUG_ALLOCATOR_KEEP=1 build: same traces, plus detection of a double free
+        for w in range(3 if quick else 10):
+            ops, nlive, ndead = [], 0, 0
+            for _ in range(rng.choice([4, 12] if quick else [6, 20, 60])):
+                if rng.random() < 0.55 or nlive == 0:
+                    ops.append("a%d" % rng.choice(npm + pm)); nlive += 1
+                else:
+                    ops.append("f%d" % rng.randrange(nlive)); nlive -= 1; ndead += 1
+            if ndead and w % 3 != 2:
+                ops.append("b%d.2" % rng.randrange(ndead))
+            cases.append("debugkeep %d %d %d " % (PAGE, sT, aT) + " ".join(ops))
+    # --- plain interface: max_size(), operator== / != (all overloads), rebind, PoolAllocator<void,s>
+    for sT, aT in TYPES:
+        for sN in pa_s(sT):
+            cases.append("api pa %d %d %d" % (sT, aT, sN))
+    for sT, aT in SYS_TYPES:
+        cases.append("api malloc %d %d 0" % (sT, aT)); cases.append("api debug %d %d 0" % (sT, aT))
+    for sT, aT, al in ALIGNED:
+        cases.append("api aligned %d %d %d" % (sT, aT, al))
     # --- isAligned
     for k in range(0, 13):
         a = 1 << k
@@ -258,7 +398,8 @@ def gen(ctx):
     # --- AlignedBase<align,.>::operator new(count, ptr) (AlignedNumber<double,align> placed at a 4096-aligned buffer + off)
     for a in (16, 32, 64, 128):
         for off in sorted(set([0, 1, 8, a // 2, a - 1, a, a + 1, a + 8, 2 * a, 3 * a + a // 2, 4096, 4096 + a // 2, 8192 - a] + [rng.randrange(8192) for _ in range(6)])):
-            cases.append("alignedbase %d %d" % (a, off))
+            for mode in (0, 1, 2):          # operator new, operator new[], operator new with the default (aborting) handler
+                cases.append("alignedbase %d %d %d" % (a, off, mode))
     return cases
 
 
@@ -266,39 +407,52 @@ def gen(ctx):
 def case_parts(case):
     t = case.split()
     kind = t[0]
-    npar = {"pool": 3, "pa": 3, "malloc": 2, "aligned": 3, "debug": 3, "isaligned": 2, "alignedbase": 2}[kind]
+    if kind == "api":
+        return kind, t[1:], []
+    npar = {"pool": 3, "pa": 3, "malloc": 2, "aligned": 3, "debug": 3, "dman": 3, "debugkeep": 3, "isaligned": 2, "alignedbase": 3}[kind]
     return kind, [int(x) for x in t[1:1 + npar]], t[1 + npar:]
+
+
+DEBUG_KINDS = ("debug", "dman", "debugkeep")
+NOSCRIPT = ("isaligned", "alignedbase", "api")
 
 
 def succeeds_fn(kind, par):
     if kind in ("pool", "pa"):
         return lambda n: n == 1
-    sT = par[1] if kind == "debug" else par[0]
+    sT = par[1] if kind in DEBUG_KINDS else par[0]
     return lambda n: n * sT < 2 ** 46
+
+
+def zfrees_fn(kind):
+    return (lambda n: n == 1) if kind in ("pool", "pa") else (lambda n: True)
 
 
 def sig_of(case, impl_line, verdict):
     kind, par, ops = case_parts(case)
+    if kind == "api":
+        return "C15:api:%s" % par[0]
+    if kind == "alignedbase":
+        return "C15:alignedbase:mode%d" % par[2]
     m = re.search(r"at op (\d+): (\S+)", verdict)
-    if kind == "debug" and m:
+    if kind in DEBUG_KINDS and m:
         k, tok = int(m.group(1)), m.group(2)
         sT = par[1]
         if k < len(ops):
             op = ops[k]
             if op[0] == 'a' and tok.startswith("ok") and int(op[1:]) * sT + 2 * PAGE > SIZE_MAX:
-                return "C15:debug:alloc:size-overflow"
+                return "C15:%s:alloc:size-overflow" % kind
             if op[0] == 'f' and tok.startswith("ABORT(memory_block_not_found"):
-                # which block was freed?
-                live = []
-                for o in ops[:k]:
-                    if o[0] == 'a':
-                        live.append(int(o[1:]))
-                    else:
-                        live.pop(int(o[1:]))
-                n = live[int(op[1:])] if int(op[1:]) < len(live) else -1
-                if n >= 0 and (n * sT) % PAGE == 0:
-                    return "C15:debug:dealloc:page-multiple"
-        return "C15:debug:" + re.sub(r"[^A-Za-z!(_)-]", "", tok)[:40]
+                try:
+                    ev = parse_events(ops[:k + 1], succeeds_fn(kind, par), zfrees_fn(kind))
+                    n = [e[1] for e in ev if e[0] == 'a' and e[2] == ev[-1][1]][0]
+                    if (n * sT) % PAGE == 0:
+                        return "C15:%s:dealloc:page-multiple" % kind
+                except Exception:
+                    pass
+            return "C15:%s:%s:%s" % (kind, {"a": "alloc", "f": "dealloc", "z": "dealloc-count", "x": "dealloc-null", "y": "dealloc-foreign",
+                                               "b": "dealloc-misuse"}.get(op[0], "op"), re.sub(r"[^A-Za-z!-]", "", tok.split("(")[0])[:24])
+        return "C15:%s:%s" % (kind, re.sub(r"[^A-Za-z!(_)-]", "", tok)[:40])
     fl = re.search(r"!([a-z-]+)", verdict)
     if kind == "malloc" and fl and fl.group(1) == "misaligned" and par[1] > 16:
         return "C15:malloc:misaligned:overaligned-type"
@@ -306,11 +460,17 @@ def sig_of(case, impl_line, verdict):
         return "C15:%s:%s" % (kind, fl.group(1))
     if "max_size" in verdict:
         return "C15:%s:served-beyond-max_size" % kind
+    if "destructor" in verdict:
+        return "C15:%s:manager-destructor" % kind
+    if "print()" in verdict:
+        return "C15:%s:print" % kind
     if "destroy" in verdict:
         return "C15:%s:destroy" % kind
     if "not refused" in verdict:
         return "C15:%s:n-not-1-served" % kind
     if "block predicate" in verdict:
+        if m and int(m.group(1)) < len(ops) and ops[int(m.group(1))][0] in "xyzk":
+            return "C15:%s:%s" % (kind, {"x": "free-null", "y": "free-foreign", "z": "deallocate-count", "k": "copy"}[ops[int(m.group(1))][0]])
         return "C15:%s:block-predicate" % kind
     if "incomplete" in verdict:
         return "C15:%s:crash" % kind
@@ -323,17 +483,56 @@ SAN_ENV = {"ASAN_OPTIONS": "allocator_may_return_null=1:detect_leaks=0:abort_on_
 
 
 def build(ctx, san=True):
-    ncfg, sancfg = write_configs(ctx)
-    jobs = [dict(srcs=[H], out=ctx.path("impl"), opt="-O1", flags=["-I" + ctx.build], repo_srcs=REPO_SRCS)]
+    """returns (impls, impls_san, ncfg): impls = {"parts": [(exe, configs)], "keep": exe}"""
+    ncfg, parts, sparts = write_configs(ctx)
+    inc = "-I" + ctx.build
+    jobs = [dict(srcs=[H], out=ctx.path("impl_p%d" % k), opt="-O1", flags=[inc, '-DCONFIGS_INC="configs_p%d.inc"' % k], repo_srcs=REPO_SRCS) for k in range(NPART)]
+    jobs.append(dict(srcs=[H], out=ctx.path("impl_keep"), opt="-O1", flags=[inc, '-DCONFIGS_INC="configs_keep.inc"', "-DDEBUG_ALLOCATOR_KEEP=1"], repo_srcs=REPO_SRCS))
     if san:
-        jobs.append(dict(srcs=[H], out=ctx.path("impl_san"), san=True, flags=["-I" + ctx.build, '-DCONFIGS_INC="configs_san.inc"'], repo_srcs=REPO_SRCS))
+        jobs += [dict(srcs=[H], out=ctx.path("impl_san%d" % k), san=True, opt="-O0", flags=[inc, '-DCONFIGS_INC="configs_san%d.inc"' % k], repo_srcs=REPO_SRCS)
+                 for k in range(NPART_SAN)]
     outs = V.cxx_many(ctx, jobs)
-    return outs, (ncfg, sancfg)
+    impls = {"parts": list(zip(outs[:NPART], parts)), "keep": outs[NPART]}
+    impls_san = {"parts": list(zip(outs[NPART + 1:], sparts)), "keep": None} if san else None
+    return impls, impls_san, ncfg
+
+
+def run_impl(ctx, impl, cases, tag, timeout=None, env=None):
+    """route every case to the executable that contains its instantiation (`debugkeep` cases: the DEBUG_ALLOCATOR_KEEP=1 build)"""
+    timeout = timeout or (300 if ctx.quick else 1200)
+    route = {}
+    for i, c in enumerate(cases):
+        if c.startswith("debugkeep"):
+            exe = impl["keep"]
+        else:
+            cfg = config_of(c)
+            exe = next((e for e, cs in impl["parts"] if cfg in cs), impl["parts"][0][0])
+        route.setdefault(exe, []).append(i)
+    res = ["NOT-RUN"] * len(cases)
+    for n, (exe, idx) in enumerate(sorted(route.items(), key=lambda kv: str(kv[0]))):
+        if exe is None:
+            continue
+        for i, o in zip(idx, V.run_cases(ctx, [exe], [cases[i] for i in idx], tag="%simpl%d" % (tag, n), timeout=timeout, env=env)):
+            res[i] = o
+    return res
+
+
+def probe_compile(ctx):
+    """public overloads that only matter at compile time: PoolAllocator comparison with different chunk sizes"""
+    try:
+        V.cxx(ctx, [os.path.join(V.VERIF, "harness", "C15", "probe_eq.cc")], ctx.path("probe_eq.o"), repo_srcs=[], flags=["-c"])
+        return True
+    except V.BuildError as e:
+        m = re.search(r"error: (.*)", str(e))
+        ctx.violation("C15:pa:operator==:different-chunk-size:does-not-compile",
+                      {"case": "harness/C15/probe_eq.cc: PoolAllocator<int,3>() == PoolAllocator<int,4>()", "impl": "compile error: " + (m.group(1) if m else "?"),
+                       "model": "c15_pa_equal true false = false", "oracle": "the comparison operators must be usable for every pair of PoolAllocator types"})
+        return False
 
 
 def run_all(ctx, model, impl, cases, tag):
     mo = V.run_cases(ctx, [model], cases, tag=tag + "model", timeout=600)
-    io = V.run_cases(ctx, [impl], cases, tag=tag + "impl", timeout=300 if ctx.quick else 1200)
+    io = run_impl(ctx, impl, cases, tag)
     cf = ctx.path(tag + "oracle.cases"); of = ctx.path(tag + "oracle.impl")
     open(cf, "w").write("\n".join(cases) + "\n"); open(of, "w").write("\n".join(io) + "\n")
     rc, out = V.sh([model, cf, of], timeout=600)
@@ -348,11 +547,11 @@ def run_all(ctx, model, impl, cases, tag):
 def shrink(ctx, model, impl, case, sig, impl_line, verdict):
     """Delta debugging on the op sequence (abstract events, frees follow their allocation), impl + oracle in the loop."""
     kind, par, ops = case_parts(case)
-    if kind in ("isaligned", "alignedbase"):
+    if kind in NOSCRIPT:
         return (case, impl_line, verdict)
-    suc = succeeds_fn(kind, par)
+    suc = succeeds_fn(kind, par); zf = zfrees_fn(kind)
     try:
-        ev = parse_events(ops, suc)
+        ev = parse_events(ops, suc, zf)
     except Exception:
         return (case, impl_line, verdict)
     pre = " ".join([kind] + [str(x) for x in par]) + " "
@@ -361,13 +560,13 @@ def shrink(ctx, model, impl, case, sig, impl_line, verdict):
         cands = []
         for i in range(len(ev)):
             e = ev[i]
-            cand = [x for j, x in enumerate(ev) if j != i and not (e[0] == 'a' and x[0] == 'f' and x[1] == e[2])]
-            r = render(cand, suc)
+            cand = [x for j, x in enumerate(ev) if j != i and not (e[0] == 'a' and x[0] in ('f', 'z', 'b', 'b2') and x[1] == e[2])]
+            r = render(cand, suc, zf)
             if r is not None and r:
                 cands.append((cand, pre + " ".join(r)))
         # also: drop the tail after each position (big steps first)
         for cut in (len(ev) // 2, len(ev) * 3 // 4):
-            r = render(ev[:cut], suc)
+            r = render(ev[:cut], suc, zf)
             if r:
                 cands.insert(0, (ev[:cut], pre + " ".join(r)))
         if not cands:
@@ -399,8 +598,9 @@ def run(ctx):
     if ok and not ctx.quick:
         coqchk(ctx)
     model = V.build_model(ctx)
-    (outs, (ncfg, sancfg)) = build(ctx, san=True)
-    impl, impl_san = outs
+    impl, impl_san, ncfg = build(ctx, san=True)
+    sancfg = set().union(*[cs for _, cs in impl_san["parts"]])
+    ctx.coverage["compile_probe_pa_eq"] = probe_compile(ctx)
     cases = gen(ctx)
     ctx.log("generated %d cases on %d instantiations" % (len(cases), ncfg))
     mo, io, vo = run_all(ctx, model, impl, cases, "")
@@ -445,8 +645,11 @@ def run(ctx):
                 ctx.violation("corr:C15/%s" % kind, {"broken": "corr:C15/%s (impl differs from model, spec oracle accepts the impl's trace)" % kind,
                                                      "case": c[:4000], "impl": a[:4000], "model": mm[:4000], "oracle": "accepts impl output"}, found_input=False)
     # sanitizer build: pool / malloc / debug / isaligned cases (aligned_alloc with size not a multiple of the alignment is rejected by ASan itself)
-    sub = [i for i, c in enumerate(cases) if not c.startswith("aligned") and (c.startswith("isaligned") or config_of(c) in sancfg)][::(2 if ctx.quick else 1)]
-    so = V.run_cases(ctx, [impl_san], [cases[i] for i in sub], tag="san", timeout=300 if ctx.quick else 1500, env=SAN_ENV)
+    # (UBSan itself stops deallocate(nullptr) of the debug allocator at the pointer arithmetic: those cases stay with the plain build)
+    sub = [i for i, c in enumerate(cases) if not c.startswith("aligned") and not c.startswith("debugkeep")
+           and not (c.split()[0] in DEBUG_KINDS and c.endswith(" x"))
+           and (c.startswith("isaligned") or config_of(c) in sancfg)][::(2 if ctx.quick else 1)]
+    so = run_impl(ctx, impl_san, [cases[i] for i in sub], "san", timeout=300 if ctx.quick else 1500, env=SAN_ENV)
     nsan = 0
     dif = [(i, so[j]) for j, i in enumerate(sub) if j < len(so) and so[j] != io[i]]
     if dif:
@@ -486,8 +689,8 @@ def replay(ctx, path):
     rep = json.load(open(path))
     case = rep["case"]
     model = V.build_model(ctx)
-    (outs, _) = build(ctx, san=False)
-    mo, io, vo = run_all(ctx, model, outs[0], [case], "replay")
+    impl, _, _ = build(ctx, san=False)
+    mo, io, vo = run_all(ctx, model, impl, [case], "replay")
     mm, _, mv = mo[0].partition(" | ")
     print("case  :", case); print("impl  :", io[0]); print("model :", mm); print("oracle:", vo[0], "(on impl output);", mv, "(on model output)")
     return 1 if vo[0] != "ok" else 0
